@@ -63,7 +63,11 @@ def main():
         tb = traceback.format_exc()
         ctx.add_obligation('harness', False, tb[-800:])
         ctx.violation('harness-crashed:%s' % type(e).__name__, dict(kind='theorem', obligation='harness', detail=tb[-3000:]), found_input=False)
-    sys.exit(ctx.finish())
+    code = ctx.finish()
+    # leave without interpreter tear-down: objects left behind by deliberately damaged pickles (C17) make it slow and noisy
+    sys.stdout.flush()
+    sys.stderr.flush()
+    os._exit(code)
 
 
 def fallback_search(mod, ctx):
